@@ -79,7 +79,7 @@ func (l *Live) Update(ev *Event) (gone []*File) {
 			l.live[ev.File.Spec], l.removed[ev.File.Spec] = false, true
 			gone = append(gone, ev.File)
 		}
-	case "gc":
+	case "gc", "gcr", "gcr2":
 		// evicted = roots that were gc candidates (in the gc index before) and whose gc entry is gone
 		after := map[string]bool{}
 		for _, g := range ev.After.GC {
@@ -120,7 +120,15 @@ func (l *Live) LiveFiles(rn *Runner) []*File {
 //	                                 leaves the root in the gc index)
 //	.shared-with-unregistered-upload the chunk belongs to a /bytes upload, which chunkinfo's reference counts do not know
 //	.after-unpin                     the chunk belongs to an uploaded file that went through pin + unpin (unpin enters it into the gc index)
+//	.evicted-file-pinned-during-run  the chunk belongs to a file that was evicted although it was pinned (POST /pins answered 201) while
+//	                                 the run was already working on it (gcr: inside DelFile, before the deletion callback)
+//	.evicted-file-pinned-before-commit the chunk belongs to a file that was pinned (201) AFTER its deletion callback had run and before the run
+//	                                 committed its batch (gcr2: inside the DelFile call of the next candidate)
 //	.other                           none of these
+//
+// For a `gcr` / `gcr2` run whose racing operation fired, the run's own effect is everything between the state before the
+// run and the state right before the racing operation, plus everything between the state right after it and the
+// state after the run (the batch of the run is committed at its end, so Has inside the window still shows every chunk).
 type C12Oracle struct {
 	unpinned map[string]bool // specs that went through an API unpin
 }
@@ -134,14 +142,28 @@ func (o *C12Oracle) Check(ctx *core.Ctx, ev *Event) {
 	if ev.Kind == "unpin" && ev.Code == 200 && ev.File != nil {
 		o.unpinned[ev.File.Spec] = true
 	}
-	if ev.Kind != "gc" {
+	if ev.Kind == "gcr" && ev.Fired && ev.Target != nil && len(ev.Arg) == 5 && ev.Arg[2] == "unpin" && ev.RaceCode == "200" {
+		o.unpinned[ev.Target.Spec] = true // racing unpin through the API
+	}
+	if ev.Kind != "gc" && ev.Kind != "gcr" && ev.Kind != "gcr2" {
 		return
 	}
 	rn := ev.Runner
 	b, a := ev.Before, ev.After
+	// segments of the run: [b, m0] and [m1, a]; without a racing operation m0 = m1 = b
+	m0, m1 := b, b
+	if (ev.Kind == "gcr" || ev.Kind == "gcr2") && ev.Fired && ev.Mid0 != nil && ev.Mid1 != nil {
+		m0, m1 = ev.Mid0, ev.Mid1
+	}
 	listed := map[string]bool{}
 	for _, l := range b.Listed {
 		listed[l] = true
+	}
+	pinnedInRun := map[string]bool{} // references that became listed by the racing operation
+	for _, l := range m1.Listed {
+		if !contains(m0.Listed, l) {
+			pinnedInRun[l] = true
+		}
 	}
 	// files evicted by this run
 	var evicted []*File
@@ -158,6 +180,14 @@ func (o *C12Oracle) Check(ctx *core.Ctx, ev *Event) {
 	}
 	cause := func(k string) string {
 		addr := boson.MustParseHexAddress(k)
+		for _, f := range evicted {
+			if f.HasAddr(addr) && pinnedInRun[f.Root.String()] {
+				if ev.Kind == "gcr2" {
+					return "evicted-file-pinned-before-commit"
+				}
+				return "evicted-file-pinned-during-run"
+			}
+		}
 		for _, f := range evicted {
 			if f.HasAddr(addr) && listed[f.Root.String()] {
 				return "evicted-file-was-pinned"
@@ -180,31 +210,37 @@ func (o *C12Oracle) Check(ctx *core.Ctx, ev *Event) {
 		}
 		return "other"
 	}
-	// (1) pin index identical
-	var keys []string
-	for k := range b.Pin {
-		keys = append(keys, k)
-	}
-	for k := range a.Pin {
-		if _, ok := b.Pin[k]; !ok {
+	// (1) pin index identical over both segments of the run
+	diff := func(x, y *Snap) {
+		var keys []string
+		for k := range x.Pin {
 			keys = append(keys, k)
 		}
-	}
-	sort.Strings(keys)
-	for _, k := range keys {
-		if b.Pin[k] != a.Pin[k] {
-			ctx.Fail("gc-changes-pin-counter."+cause(k), "gc run changed pin counter of chunk %s (id %d): %d -> %d", k[:8], rn.ids[k], b.Pin[k], a.Pin[k])
+		for k := range y.Pin {
+			if _, ok := x.Pin[k]; !ok {
+				keys = append(keys, k)
+			}
+		}
+		sort.Strings(keys)
+		for _, k := range keys {
+			if x.Pin[k] != y.Pin[k] {
+				ctx.Fail("gc-changes-pin-counter."+cause(k), "gc run changed pin counter of chunk %s (id %d): %d -> %d", k[:8], rn.ids[k], x.Pin[k], y.Pin[k])
+			}
 		}
 	}
-	// (2) pinned chunks still stored
-	keys = keys[:0]
-	for k := range b.Pin {
+	if m0 != b {
+		diff(b, m0)
+	}
+	diff(m1, a)
+	// (2) pinned chunks still stored (pinned when the run — after the racing operation, if any — decided about them)
+	var keys []string
+	for k := range m1.Pin {
 		keys = append(keys, k)
 	}
 	sort.Strings(keys)
 	for _, k := range keys {
-		if b.Pin[k] > 0 && b.Stored[k] && !a.Stored[k] {
-			ctx.Fail("gc-deletes-pinned-chunk."+cause(k), "gc run deleted chunk %s (id %d) whose pin counter was %d", k[:8], rn.ids[k], b.Pin[k])
+		if m1.Pin[k] > 0 && m1.Stored[k] && !a.Stored[k] {
+			ctx.Fail("gc-deletes-pinned-chunk."+cause(k), "gc run deleted chunk %s (id %d) whose pin counter was %d", k[:8], rn.ids[k], m1.Pin[k])
 		}
 	}
 	// (3) chunks stored by local upload still stored
@@ -218,6 +254,15 @@ func (o *C12Oracle) Check(ctx *core.Ctx, ev *Event) {
 			ctx.Fail("gc-deletes-uploaded-chunk."+cause(k), "gc run deleted chunk %s (id %d) that was stored by local upload", k[:8], rn.ids[k])
 		}
 	}
+}
+
+func contains(l []string, x string) bool {
+	for _, y := range l {
+		if y == x {
+			return true
+		}
+	}
+	return false
 }
 
 // ---- C15 ------------------------------------------------------------------------------------------
@@ -512,11 +557,23 @@ func specs(gone []*File, ev *Event) []string {
 
 // C17Oracle: a set self-presence bit i => data chunk i stored; "fully downloaded" => all data
 // chunks stored; after delete no availability / discovery / source record in memory or persisted.
+//
+// Records the node keeps for the PEER (`chunk-<root>-<peer>`, written when a chunk of the file is served to it) are
+// records of the file as well: they must go with the file.  Besides the check right after the removal, the oracle
+// follows every file that was removed once: an availability record for the peer — in memory or persisted — may exist
+// only if something of the CURRENT incarnation of the file was transferred to the peer, and may mark only positions
+// that were transferred (a record left over from the deleted incarnation comes back into memory when the file exists
+// again and chunkinfo is re-initialised from the state store).
 type C17Oracle struct {
-	L *Live
+	L         *Live
+	served    map[string]map[int]bool // spec -> data positions served to the peer since the file was last removed
+	servedAny map[string]bool         // spec -> some chunk (data or not) served since then
+	removed   map[string]bool         // spec -> removed at least once
 }
 
-func NewC17Oracle() *C17Oracle { return &C17Oracle{L: NewLive()} }
+func NewC17Oracle() *C17Oracle {
+	return &C17Oracle{L: NewLive(), served: map[string]map[int]bool{}, servedAny: map[string]bool{}, removed: map[string]bool{}}
+}
 
 // distinct data chunks in first-occurrence order = bit positions
 func positions(f *File) []boson.Address {
@@ -539,6 +596,55 @@ func (o *C17Oracle) Check(ctx *core.Ctx, ev *Event) {
 	}
 	s := ev.After
 	self := rn.N.Addr.String()
+	peer := rn.P.Addr.String()
+	if ev.Kind == "serve" && ev.Word == "ok" && ev.File != nil {
+		o.servedAny[ev.File.Spec] = true
+		for i, a := range positions(ev.File) {
+			if a.Equal(ev.Served) {
+				if o.served[ev.File.Spec] == nil {
+					o.served[ev.File.Spec] = map[int]bool{}
+				}
+				o.served[ev.File.Spec][i] = true
+			}
+		}
+	}
+	for _, f := range gone {
+		o.removed[f.Spec] = true
+		delete(o.served, f.Spec)
+		delete(o.servedAny, f.Spec)
+	}
+	for _, f := range rn.Files() {
+		if !o.removed[f.Spec] || f.Enc || f.Root.Bytes() == nil {
+			continue
+		}
+		root := f.Root.String()
+		for _, r := range s.CI.Roots {
+			if r.Root != root {
+				continue
+			}
+			for _, p := range r.Presence {
+				if p.Overlay != peer {
+					continue
+				}
+				if !o.servedAny[f.Spec] {
+					ctx.Fail("stale-peer-record-memory", "after %s: availability record for the peer of %s in memory (bits %s) although nothing of the file was transferred to it since the file was removed", ev.Kind, f.Spec, bitString(p.Len, p.B))
+					continue
+				}
+				for i := 0; i < p.Len; i++ {
+					if i/8 < len(p.B) && p.B[i/8]&(1<<(uint(i)%8)) != 0 && !o.served[f.Spec][i] {
+						ctx.Fail("stale-peer-bit-memory", "after %s: the record for the peer of %s marks data chunk %d, which was not transferred to it since the file was removed", ev.Kind, f.Spec, i)
+					}
+				}
+			}
+		}
+		if !o.servedAny[f.Spec] {
+			for _, k := range s.Keys {
+				if k == "chunk-"+root+"-"+peer {
+					ctx.Fail("stale-peer-record-persisted", "after %s: state store holds an availability record for the peer of %s although nothing of the file was transferred to it since the file was removed", ev.Kind, f.Spec)
+				}
+			}
+		}
+	}
 	for _, r := range s.CI.Roots {
 		f := rn.byRoot(boson.MustParseHexAddress(r.Root))
 		if f == nil || f.Enc {
